@@ -38,7 +38,7 @@ def self_test(ctx: Ctx):
 def run(ctx: Ctx):
     quick = ctx.tier == "quick"
     ctx.rule = ("scenarios = crystal (10) x orientation (zone axis, three small tilts / rotations) x energy (100, 200 keV) x sg_max x g_max "
-                "x Bloch equation, enumerated by TLC; thickness list (0, 37, 120, 455.5 A); non-trivial = more than one beam")
+                "x Bloch equation, enumerated by TLC; thickness lists over (0, 37, 120, 455.5 A) in ascending, descending, unsorted order and with a repeated entry; non-trivial = more than one beam")
     ctx.design_check("BlochImpl", cfg_text=bloch.IMPL_CFG.format(n=1 if quick else 2), label="BlochImpl: lookup preconditions", timeout=3000)
     r = ctx.design_check("Bloch", "Bloch.cfg", label="scenario space", workers=1)
     self_test(ctx)
@@ -51,9 +51,10 @@ def run(ctx: Ctx):
     if quick:
         seen, pick = set(), []
         for c in cases:
-            if c["crystal"] not in seen and c["g_max"] == 1:
-                seen.add(c["crystal"]); pick.append(c)
-        cases = pick + [c for c in cases if c not in pick and c["g_max"] == 1][:6]
+            k1, k2 = ("x", c["crystal"]), ("o", c["order"], c["use_wave_eq"])
+            if c["g_max"] == 1 and (k1 not in seen or k2 not in seen):
+                seen.update([k1, k2]); pick.append(c)
+        cases = pick + [c for c in cases if c not in pick and c["g_max"] == 1][:4]
     else:
         ctx.exhaustive = True
     evs = []
